@@ -45,7 +45,7 @@ def verify(pid, v):
     rc1, o1 = sh(run, cwd=wt, timeout=900)
     log["demo_with_change"] = {"rc": rc1, "tail": o1[-400:]}
     sh("git reset -q --hard; rm -rf _build", cwd=wt)
-    ok = rc0 == 0 and rc1 != 0 and suite_ok
+    ok = (rc0 == 0 and 'FAIL' not in o0[-600:]) and (rc1 != 0 or 'FAIL' in o1[-2000:]) and suite_ok
     print(json.dumps(log, indent=1))
     print("CONFIRMED" if ok else "NOT CONFIRMED")
     if ok:
